@@ -683,3 +683,4 @@ def run(program, res, tier):
     _s7_sibling_returns(program, res)
     from . import c05
     c05._s6_concat_missing(program, Relabel(res, {"*": "C03-S3"}))
+    c05._s4b_polars_slice_contract(program, Relabel(res, {"*": "C03-S3"}))
